@@ -312,6 +312,19 @@ def run(ctx):
     run_line_skeletons(ctx, jinja2)
     run_loader_overlays(ctx, jinja2, cfgs, tags1)
     run_expr_delims(ctx, jinja2, settings)
+    # whole-line line statement right after a tag that ends in '-': re-observes the recorded finding
+    lenv = L.env_for(jinja2, L.Cfg("line", True, True))
+    for blk, lin in (("{% if true -%}\n  {% if true %}\nb\n{% endif %}\n{% endif %}", "{% if true -%}\n  # if true\nb\n# endif\n{% endif %}"),
+                     ("{# a -#}\n{% set x = 1 %}\nb", "{# a -#}\n# set x = 1\nb")):
+        ob = safe(jinja2, lambda: lenv.from_string(blk).render())
+        ol = safe(jinja2, lambda: lenv.from_string(lin).render())
+        case = {"kind": "line-statement", "block_form": blk, "line_form": lin, "delims": "line"}
+        ctx.case(sample=case, key=("lsminus", blk))
+        ctx.count("line_statement_after_minus_probe")
+        if ob != ol:
+            ctx.reject(case, "block form renders %r, line form %r" % (ob, ol), "C13:line-statement-after-minus-tag-not-recognised")
+        else:
+            ctx.validated()
     for nme in ("angle", "dollar"):
         c2 = L.Cfg(nme)
         src = "{% set x = 1 %}<% set y = 2 %>$% set z = 3 %$|{{ 1 }}<%= 2 %>${ 3 }"
